@@ -298,3 +298,29 @@ func Extras() []*Term {
 	}
 	return ts
 }
+
+// annotationSlots are slot names whose content is an annotation rather
+// than part of the error message.
+var annotationSlots = map[string]bool{"key": true, "key1": true, "key2": true, "domain": true, "url": true, "detail": true, "hint": true, "value": true}
+
+// AliasSide returns a copy of t whose first side argument is a copy of
+// its wrapped error with the SAME message strings (so that both have the
+// same Error() text and type chain, i.e. the same mark) but different
+// annotation strings: two distinct errors that only differ in their safe
+// payloads. nil when t has no such shape.
+func AliasSide(t *Term) *Term {
+	if t.Kid == nil || len(t.Side) == 0 || t.Op.Kind == KMulti || t.Op.SideIsReference {
+		return nil
+	}
+	v := t.Clone()
+	side := v.Kid.Clone()
+	j := 0
+	side.EachSlot(func(k int, o *Term, i int) {
+		if annotationSlots[o.Op.Slots[i].Name] {
+			o.S[i] = Token(60 + j)
+			j++
+		}
+	})
+	v.Side[0] = side
+	return v
+}
